@@ -139,7 +139,7 @@ Definition all_cells_ok (ts : list fexpr) (k : Z) (B B1 L : Q) : bool :=
 (** the table the harness reads (extracted): per cell the error bounds of the trees, in units of 2^-64 *)
 Definition err_table (ts : list fexpr) (k : Z) : list (option (list Z)) :=
   map (fun c => match cell_row ts k c with Some r => Some (map snd r) | None => None end) (cells k).
-Close Scope Z_scope.
+Local Close Scope Z_scope.
 
 (** exact rational value, for the extracted driver *)
 Fixpoint evalQ (e : fexpr) (f : Q) : Q :=
